@@ -15,6 +15,18 @@ def _mods():
     return cc, cs, ci, cssm, solver, sssolver
 
 
+@op("cir.build", handle=True, snap=True)
+def cir_build(ctx, a, seam):
+    """a client builds its own circuit object from a description (a parameter sweep builds, analyses and discards
+    one circuit per step): unlike the pool objects this one can die"""
+    from . import world
+    name = a["src"]["p"]
+    c = world.build_one(name, ctx.plan["recipes"][name], {})
+    if isinstance(c, world.BuildFailed):
+        raise ValueError(c.cause)
+    return c
+
+
 @op("cir.transform", handle=True, snap=True)
 def cir_transform(ctx, a, seam):
     cc, cs, ci, cssm, solver, sssolver = _mods()
